@@ -7,7 +7,8 @@
    every placement-safeguard outcome (`guard` is an arbitrary function) and EVERY order in which the peers are
    processed (Go map iteration), every tie-break among equally loaded candidates (the model is set-valued). *)
 From Coq Require Import Permutation.
-From PDV Require Import lib.C10_Cluster lib.C10_StepFacts gen.Gen_C11 model.C11_Scatter proof.C11_Tables proof.C11_ScatterProof.
+From PDV Require Import lib.C10_Cluster lib.C10_StepFacts gen.Gen_C11 model.C11_Scatter model.C11_Plan proof.C11_Tables proof.C11_Pins proof.C11_ScatterProof.
+From PDV Require model.C08_Steps model.C08_Builder proof.C08_PlanProof.
 Local Open Scope list_scope.
 Local Open Scope Z_scope.
 
@@ -35,6 +36,19 @@ Theorem C11_scatter_run_keeps_every_peer :
     /\ List.length (a_targets out) = List.length order.
 Proof. exact clash_free_keeps_every_peer. Qed.
 
+(* 1b. the builder's multi-peer scatter plan: whenever C08's verified checker accepts the steps of an operator for the goal
+   of a scatter outcome (what model/C11_Plan.v evaluates on EVERY operator the real Scatter returns), the steps execute on the
+   region with every step safe and finished at its turn, the leader never removed or demoted, one peer per store, the voter
+   floor kept, and END IN EXACTLY the outcome's target placement and leader.  (Instance of C08's plan_ok_sound.)  Together with
+   C11_scatter_preserves_roles: the executed operator keeps the number of peers of every role. *)
+Theorem C11_scatter_plan_executes :
+  forall r o r8 ss,
+    C08_Builder.plan_ok (goal_of_outcome r o) r8 ss = true ->
+    exists trs rf, C08_PlanProof.exec_plan r8 ss = Some (trs, rf)
+                   /\ Forall (C08_PlanProof.transition_ok (goal_of_outcome r o)) trs
+                   /\ C08_PlanProof.final_state_ok (goal_of_outcome r o) rf.
+Proof. intros r o r8 ss. apply C08_PlanProof.plan_ok_sound_pf. Qed.
+
 (* 2. peers move only to up stores: a scattered peer stays on its store or goes to a store that is up, not down,
    connected, not busy, passes the engine filter and was not selected for another peer *)
 Theorem C11_scatter_target_good :
@@ -56,6 +70,13 @@ Proof.
   intros flags su stores r dst Hf. apply move_target_good.
   destruct move_flags_ok as (E1 & E2 & _ & E3 & E4). cbn in Hf. intuition congruence.
 Qed.
+
+(* "may only remove candidates": the unmodelled filters (placement safeguard, score / load tolerance filters, shouldBalance,
+   random picks) act in conjunction with the modelled ones, so whatever survives them is an admissible target of the model *)
+Theorem C11_more_filters_only_remove :
+  forall flags su stores r (extra : store -> bool) dst,
+    In dst (filter (fun s => move_pred flags su r s && extra s) stores) -> In dst (move_targets flags su stores r).
+Proof. exact more_filters_only_remove. Qed.
 
 (* moving the peer of `src` to such a store keeps the number of peers of every role, one peer per store, src <> dst *)
 Theorem C11_move_preserves_roles :
@@ -117,9 +138,11 @@ Proof. vm_compute. reflexivity. Qed.
 
 Print Assumptions C11_scatter_preserves_roles.
 Print Assumptions C11_scatter_run_keeps_every_peer.
+Print Assumptions C11_scatter_plan_executes.
 Print Assumptions C11_scatter_target_good.
 Print Assumptions C11_move_target_good.
 Print Assumptions C11_move_preserves_roles.
+Print Assumptions C11_more_filters_only_remove.
 Print Assumptions C11_leader_target_good.
 Print Assumptions C11_forced_leader_target.
 Print Assumptions C11_one_peer_per_store.
